@@ -128,10 +128,11 @@ func c14r1(w *World, rr *RuleRun) {
 		u, ok := i.(*ssa.UnOp)
 		return ok && u.Op == token.ARROW && isChan(u.X)
 	}
-	isDel := func(i ssa.Instruction) bool {
-		c := callInstrCommon(i)
-		return c != nil && callMatches(c, delT)
+	delRoots := map[ssa.Instruction]bool{}
+	for _, lc := range w.callsLifted(q, delT) {
+		delRoots[lc.Root] = true
 	}
+	isDel := func(i ssa.Instruction) bool { return delRoots[i] }
 	for _, a := range adds {
 		for _, step := range []struct {
 			what string
@@ -603,6 +604,47 @@ func c14r9(w *World, rr *RuleRun) {
 				ok := w.isOwnQueryCtxDone(w.TS.Of(x.X), fn)
 				rr.At(w, ins, "a query callback never blocks on a bare channel receive (other than its own context)", ok, "receive from "+trunc(w.TS.Of(x.X).String(), 80))
 			}
+		})
+		// blocking selects in module helpers the callback calls: released by a context parameter of
+		// the helper that the callback fills with its own context
+		eachInstr(fns, func(fn *ssa.Function, ins ssa.Instruction) {
+			call, ok := ins.(*ssa.Call)
+			if !ok {
+				return
+			}
+			g := call.Call.StaticCallee()
+			if g == nil || !w.P.IsLib(g) || g.Pkg != cb.Pkg || seen[g] || len(g.Blocks) == 0 {
+				return
+			}
+			eachInstr([]*ssa.Function{g}, func(_ *ssa.Function, i2 ssa.Instruction) {
+				sel, ok := i2.(*ssa.Select)
+				if !ok || !sel.Blocking {
+					return
+				}
+				n++
+				okSel := false
+				for _, st := range sel.States {
+					ch := w.TS.Of(st.Chan)
+					if st.Dir != types.RecvOnly || ch.Op != OpCall || suffixName(ch) != "Done" || len(ch.Args) != 1 {
+						continue
+					}
+					// which parameter of g?  (paramBind may already have rewritten it to the caller's value)
+					for k, prm := range g.Params {
+						if !strings.HasSuffix(prm.Type().String(), "context.Context") || k >= len(call.Call.Args) {
+							continue
+						}
+						if termEq(ch.Args[0], w.TS.Of(prm)) || termEq(ch.Args[0], w.TS.Of(call.Call.Args[k])) {
+							at := w.TS.Of(call.Call.Args[k])
+							if at.Op == OpParam {
+								if cp, ok := at.Obj.(*ssa.Parameter); ok && cp.Parent() == cb {
+									okSel = true
+								}
+							}
+						}
+					}
+				}
+				rr.At(w, ins, "a blocking select in a helper of the query callback is released by the callback's own context", okSel, "helper "+shortFuncName(g))
+			})
 		})
 		if n == 0 {
 			rr.ObligeTrivial(shortFuncName(cb), "query callback has no channel operation of its own", w.P.Pos(cb.Pos()), true, "")
